@@ -94,7 +94,10 @@ Definition check_case17 (k : case17) : bool :=
 
 (* ---------- C16: commits and OffsetFetch through the coordinator ---------- *)
 Inductive kstep :=
-| KCommit (g t : bytes) (p off : Z) (meta : bytes)
+(* [keys]: on the etcd store, the keys really present under /kafscale/consumers/ after the
+   commit (read through the etcd client): the model must hold exactly these keys, so any
+   change of the key function is a mismatch at once *)
+| KCommit (g t : bytes) (p off : Z) (meta : bytes) (keys : option (list bytes))
 | KFetch (g : bytes) (req : list (bytes * list Z)) (observed : list (bytes * list (Z * Z * bytes * Z))).
 
 Record case16 := mkCase16 { k16_etcd : bool; k16_steps : list kstep }.
@@ -107,13 +110,18 @@ Definition fetch_eqb := list_eqb (pair_eqb bytes_eqb (list_eqb part_eqb)).
 Fixpoint check16_im (s : inmem) (l : list kstep) : bool :=
   match l with
   | [] => true
-  | KCommit g t p off meta :: l' => check16_im (fst (im_step s (OCommit g t p off meta))) l'
+  | KCommit g t p off meta _ :: l' => check16_im (fst (im_step s (OCommit g t p off meta))) l'
   | KFetch g req obs :: l' => fetch_eqb (offset_fetch (im_lookup s) g req) obs && check16_im s l'
   end.
 Fixpoint check16_et (s : etcd) (l : list kstep) : bool :=
   match l with
   | [] => true
-  | KCommit g t p off meta :: l' => check16_et (fst (et_step s (OCommit g t p off meta))) l'
+  | KCommit g t p off meta keys :: l' =>
+      let s' := fst (et_step s (OCommit g t p off meta)) in
+      match keys with
+      | Some ks => perm_eqb bytes_eqb (map fst (et_coff s') ++ map fst (et_groups s')) ks
+      | None => true
+      end && check16_et s' l'
   | KFetch g req obs :: l' => fetch_eqb (offset_fetch (et_lookup s) g req) obs && check16_et s l'
   end.
 Definition check_case16 (k : case16) : bool :=
